@@ -60,7 +60,12 @@ EXPLANATION = (
     "an argument computed from descriptor fields (the allocation length clamped to the size of the ma[] table) is decided over the "
     "finite domain of the fields it reads (HSN, MAIO in 0..63, N in 1..64) -- by intervals over the domain box, else by folding every "
     "valuation -- and counts as the field it equals there; a value of the domain on which it differs is reported with a frame on "
-    "which the generator then selects another channel.")
+    "which the generator then selects another channel. R8 (who writes the descriptor): every function of the firmware layer1 files "
+    "that stores into a struct l1s_h1 -- found through clang's types, each use classified by its AST context -- installs a complete "
+    "descriptor: a whole-struct copy, or hsn, maio, n and at least n entries of ma[] for the n stored (loop bound / copy size compared "
+    "as folded terms with the stored n, program order by CFG dominance, differing terms folded over the 8-bit fields they read). "
+    "A guard of fn2gsm_time that raises for a frame number of the hyperframe is decided exactly (C19.R1 machinery) and reported "
+    "with that frame number; a raise inside an inlined method is hoisted to a guarded raise of the caller.")
 ASSUMPTIONS = [
     "spec/hopping.json is a faithful transcription of TS 45.002 table 6.2.3 and of the algorithm of clause 6.2.3",
     "NBIN is the number of bits needed to represent N (TS 45.002 6.2.3), so 2^NBIN - 1 == (1 << N.bit_length()) - 1; the mask is "
@@ -74,6 +79,9 @@ ASSUMPTIONS = [
     "evidence names it under structural_proofs",
     "firmware: hsn (uint8_t from L1CTL) is assumed to be in 0..63 (the property's domain) and struct gsm_time to satisfy "
     "t1 < 2048, t2 < 26, t3 < 51 (C19.R3 invariant); the list stored as HoppingParams.ma is not mutated after construction",
+    "C07.R8: functions called between the stores of one descriptor-writing sequence do not modify the descriptor copied from; struct l1s_h1 "
+    "has the natural-alignment layout of its integer members; a hopping descriptor is reached only through expressions whose clang type is "
+    "struct l1s_h1 (no type-punned access); the right-hand side of the ma[] element copy is not analysed",
 ]
 
 F_GSM = rel("gsm_shared")
